@@ -68,7 +68,15 @@ def probe_file(work, epoch_us_list, name="probe.txt"):
 def abs_cases(tier):
     """(string, expected epoch microseconds given tz_offset minutes -> function, must_accept)"""
     # pivot instant: 2020-02-29 23:59:58 (leap day, late in the day so offsets cross midnight)
-    Y, M, D, h, mi, s = 2020, 2, 29, 23, 59, 58
+    # second pivot: day <= 12 and month != day (a swapped month/day still parses, to a different instant), early in the day
+    out = []
+    for pivot in ((2020, 2, 29, 23, 59, 58), (2021, 3, 4, 0, 6, 7)):
+        out += _abs_cases_for(tier, pivot)
+    return out
+
+
+def _abs_cases_for(tier, pivot):
+    Y, M, D, h, mi, s = pivot
     base = gen.days_from_civil(Y, M, D) * 86400 + h * 3600 + mi * 60 + s
     shapes = [("%04d%02d%02dT%02d%02d%02d", "", True), ("%04d-%02d-%02d %02d:%02d:%02d", " ", True),
               ("%04d-%02d-%02dT%02d:%02d:%02d", "", True), ("%04d/%02d/%02d %02d:%02d:%02d", " ", True)]
@@ -90,9 +98,9 @@ def abs_cases(tier):
             st = core + (sp + zs if zs else "")
             # must-accept: the spelling the help text shows (zone-less; numeric zone appended as in the documented examples)
             must = zs is None or (sp == docsep and (zs[0] in "+-"))
-            out.append((st, base, fus, zm, must))
+            out.append((st, base, fus, zm, must, (shape, fs, sp, zs)))
     for shape in ("%04d%02d%02d", "%04d-%02d-%02d", "%04d/%02d/%02d"):
-        out.append((shape % (Y, M, D), gen.days_from_civil(Y, M, D) * 86400, 0, None, True))
+        out.append((shape % (Y, M, D), gen.days_from_civil(Y, M, D) * 86400, 0, None, True, (shape, "", "", None)))
     return out
 
 
@@ -133,11 +141,13 @@ def run(tier, seed, build=True):
         tzs = [0, 330, -210] if tier == "quick" else [-720, -210, 0, 345, 840]
         jobs = []
         # ---- absolute forms
-        for st, base, fus, zm, must in abs_cases(tier):
+        spelling_of = {}
+        for st, base, fus, zm, must, spelling in abs_cases(tier):
             for t in (tzs if zm is None else tzs[:1]):
                 off = zm if zm is not None else t
                 exp_us = (base - off * 60) * 1000000 + fus
                 jobs.append(("abs", st, t, exp_us, must))
+                spelling_of[(st, t)] = spelling + (t,)
         # +epoch
         for t in tzs:
             jobs.append(("epoch", "+946684800", t, 946684800 * 1000000, True))
@@ -185,6 +195,7 @@ def run(tier, seed, build=True):
             return job, args, common.run_s4(args, cwd=work)
 
         probes = []
+        acc_by_spelling = {}
         for job, args, r in common.pmap(one, jobs):
             kind, st, t, exp, flag = job
             res.count()
@@ -194,6 +205,8 @@ def run(tier, seed, build=True):
                 res.violation({"kind": kind, "symptom": "crash"}, "%s: rc=%s" % (args, r.rc), replay)
                 continue
             accepted = r.rc == 0 or (r.rc == 1 and b"Datetime filter" in r.err)
+            if kind == "abs":
+                acc_by_spelling.setdefault(spelling_of[(st, t)], []).append((accepted, st, args))
             sm = parse_summary(r.err)
             if kind in ("reject", "pair-reject"):
                 if accepted or r.out:
@@ -241,6 +254,40 @@ def run(tier, seed, build=True):
                     continue
                 if sm["a"] != X_epoch + exp or sm["b"] != X_epoch:
                     res.violation({"kind": kind, "symptom": "wrong-instant"}, "-a @%s -b X: -a resolved to %s, expected X%+d = %s" % (st, sm["a"], exp, X_epoch + exp), replay)
+        # ---- whether a spelling is accepted cannot depend on which (valid) date it spells
+        for spelling, lst in sorted(acc_by_spelling.items(), key=str):
+            if len({a for a, _, _ in lst}) > 1:
+                ok = [st_ for a, st_, _ in lst if a][0]
+                no = [(st_, ar) for a, st_, ar in lst if not a][0]
+                res.violation({"kind": "abs", "symptom": "acceptance-depends-on-date"},
+                              "spelling %s: value %r is accepted but %r (same notation, another valid date) is rejected" % (list(spelling), ok, no[0]),
+                              {"engine": "E-CLI", "args": no[1], "files": {"one.log": common.b64(gen.text_log([(E * 1000, b"x")]))}})
+        # ---- '@' relative to a bound that has a fraction of a second: -a X -b @+D equals -a X -b X+D (probe log, microseconds)
+        Xus = X_epoch * 1000000
+        atf = [("20200301T120000.500", "@+1s", Xus + 500000, Xus + 1500000),
+               ("20200301T120000.123456", "@+1m", Xus + 123456, Xus + 60123456),
+               ("2020-03-01T12:00:00.999", "@+1h1s", Xus + 999000, Xus + 3601999000),
+               ("@-1s", "20200301T120000.250", Xus - 750000, Xus + 250000),
+               ("@-2m", "2020-03-01 12:00:00.000001", Xus - 119999999, Xus + 1),
+               ("20200301T120000.300", "@+0s", Xus + 300000, Xus + 300000),
+               ("20200301T120000", "@+1s", Xus, Xus + 1000000)]
+
+        def atprobe(c):
+            a_s, b_s, a_us, b_us = c
+            name = "atf%d.txt" % (abs(hash(c)) % 10 ** 9)
+            ts = sorted({a_us - 1, a_us, a_us + 1, b_us - 1, b_us, b_us + 1})
+            probe_file(work, ts, name)
+            args = ["--color", "never", "-t=+00:00", "--dt-after=" + a_s, "--dt-before=" + b_s, name]
+            return c, ts, args, common.run_s4(args, cwd=work)
+        for (a_s, b_s, a_us, b_us), ts, args, r in common.pmap(atprobe, atf):
+            res.count()
+            res.distinct(("at-frac", a_s, b_s))
+            want = [b"p%d" % t for t in ts if a_us <= t <= b_us]
+            got = [ln.rsplit(b" ", 1)[-1] for ln in r.out.split(b"\n") if ln]
+            if got != want or r.rc != 0:
+                res.violation({"kind": "at-frac", "symptom": "rejected" if r.rc != 0 and not r.out else "wrong-subsecond"},
+                              "-a %s -b %s: probe log printed %r (rc=%s), expected %r: the '@' bound is not the other bound plus the duration" % (a_s, b_s, got, r.rc, want),
+                              {"engine": "E-CLI", "args": args, "files": {args[-1]: common.b64(open(os.path.join(work, args[-1]), "rb").read())}})
         # ---- sub-second part of absolute values, resolved by a probe log with messages at t-1us, t, t+1us
         def probe(p):
             st, t, exp = p
